@@ -48,6 +48,8 @@ Definition eq_obs (a b : obs) : bool :=
 """
 
 DATES = [1_000_000_000, 1_100_000_000, 1_200_000_000]
+# every date a script or an initial file may carry (incl. the one-second neighbours of DATES[0])
+KNOWN_DATES = set(DATES) | {DATES[0] + 1, DATES[0] - 1}
 HASHVAL = {"SHA512": "5" * 8, "SHA256": "2" * 8, "SHA1": "1" * 8, "MD5Sum": "m" * 8}
 COMPS = [("xz", ".xz"), ("gz", ".gz"), ("bz2", ".bz2"), (None, "")]
 
@@ -63,14 +65,14 @@ def gen_resp(rng, vsize):
     base = vsize if vsize > 0 else rng.randint(0, 30)
     ann = rng.choice([None, None, 0, base, base, base, base + 1, max(base - 1, 0), rng.randint(1, 50)])
     delivered = rng.choice([base, base, base, base, base + 2, max(base - 1, 0), 0])
-    date = rng.choice([None] + DATES[:2] + DATES[:1])
+    date = rng.choice([None] + DATES[:2] + DATES[:1] + [DATES[0] + 1, DATES[0] - 1])
     aborts = rng.random() < 0.15
     return {"pre": pre, "kind": "ok", "ann": ann, "date": date, "delivered": delivered, "aborts": aborts}
 
 
 def gen_good(rng, vsize):
     base = vsize if vsize > 0 else rng.randint(0, 30)
-    return {"pre": 0, "kind": "ok", "ann": rng.choice([None, base]), "date": rng.choice([None] + DATES[:2]),
+    return {"pre": 0, "kind": "ok", "ann": rng.choice([None, base]), "date": rng.choice([None] + DATES[:2] + [DATES[0] + 1]),
             "delivered": base, "aborts": False}
 
 
@@ -106,10 +108,21 @@ def gen_case(rng, force=None):
 
 def fill_scripts(rng, case, paths_by_variant):
     """paths_by_variant: list of (vsize, [paths]) computed from the REAL objects."""
-    style = rng.choice(["mixed", "mixed", "mixed", "persistent_bad", "transient", "all_good", "late_good"])
+    style = rng.choice(["mixed", "mixed", "mixed", "persistent_bad", "transient", "all_good", "late_good",
+                        "near_unmodified"])
     case["style"] = style
     for vsize, paths in paths_by_variant:
         for p in paths:
+            if style == "near_unmodified":
+                # a complete local file whose date is the announced one, or one second off (same size):
+                # only the former is "unmodified"
+                base = vsize if vsize > 0 else rng.randint(1, 30)
+                d = rng.choice([DATES[0], DATES[0] + 1, DATES[0] - 1])
+                case["scripts"][p] = {"first": [], "rest": {"pre": 0, "kind": "ok", "ann": base, "date": d,
+                                                            "delivered": base, "aborts": False}}
+                if not case.get("blocked"):
+                    case["fs"][p] = {"size": base, "mtime": DATES[0]}
+                continue
             if style == "all_good":
                 first, rest = [], gen_good(rng, vsize)
             elif style == "persistent_bad":
@@ -136,7 +149,7 @@ def fill_scripts(rng, case, paths_by_variant):
             case["scripts"][p] = {"first": first, "rest": rest}
             if rng.random() < 0.3 and not case.get("blocked"):
                 case["fs"][p] = {"size": rng.choice([vsize, vsize, 3, 0, vsize + 1]),
-                                 "mtime": rng.choice([None] + DATES[:2])}
+                                 "mtime": rng.choice([None] + DATES[:2] + [DATES[0] + 1])}
 
 
 # ------------------------------------------------------------------ real objects
@@ -269,7 +282,7 @@ def run_impl(case, sandbox: Path):
         if not case.get("blocked") and fp.is_file():
             st = fp.stat()
             mt = int(st.st_mtime)
-            files.append((st.st_size, mt if mt in DATES else None))
+            files.append((st.st_size, mt if mt in KNOWN_DATES else None))
         else:
             files.append(None)
     return {"kind": kind, "vi": vi, "sz": sz, "reqs": reqs, "files": files, "views": views,
@@ -419,7 +432,7 @@ def run_stage_impl(cases, sandbox: Path, nthreads=1):
             if fp.is_file():
                 st = fp.stat()
                 mt = int(st.st_mtime)
-                files.append((st.st_size, mt if mt in DATES else None))
+                files.append((st.st_size, mt if mt in KNOWN_DATES else None))
             else:
                 files.append(None)
     return {"counters": counters, "reqs": reqs, "files": files, "views": views_all}
